@@ -407,6 +407,7 @@ func compareOnce(g *graph.DependencyGraph, m *model, step int) {
 	if !cyc {
 		vrt.Cover("acyclic_state")
 		checkTopo(g, m, "C19")
+		checkTopo(g, m, "C06") // the same obligation under C06's ids (sort after any history of edits)
 		g.CalculateDepths()
 		for i := 0; i < n; i++ {
 			if m.nodes&(1<<i) != 0 {
@@ -432,6 +433,7 @@ func H_C19() {
 	selfLoops := vrt.Param("self_loops", 0)
 	m := &model{n: n}
 	g := graph.NewDependencyGraph()
+	rawStart := false
 	present := vrt.Pick("present", 0, 1<<n-1)
 	for i := 0; i < n; i++ {
 		if present&(1<<i) == 0 {
@@ -444,10 +446,22 @@ func H_C19() {
 		m.add(i, deps)
 		g.AddProviderDeferred(&prov{i, deps, n})
 	}
-	g.DetectCycles() // completes the deferred adds (documented)
-	compare(g, m, 0)
+	// detect0=0: the operations follow the deferred adds directly, without the
+	// DetectCycles that refreshes the derived fields (degrees, dependents)
+	if vrt.Pick("detect0", 0, vrt.Param("raw_start", 0)) == 0 || vrt.Param("raw_start", 0) == 0 {
+		g.DetectCycles() // completes the deferred adds (documented)
+		compare(g, m, 0)
+	} else {
+		vrt.Cover("raw_start")
+		rawStart = true
+	}
 	for s := 1; s <= L; s++ {
 		op := vrt.Pick("op"+string(rune('0'+s)), 0, 4)
+		if rawStart && s == 1 {
+			// derived fields are documented to be stale until the next DetectCycles /
+			// AddProvider / RemoveProvider: the first operation is one that refreshes them
+			vrt.Assume(op != 4)
+		}
 		switch op {
 		case 0: // immediate add / replace
 			x := vrt.Pick("x"+string(rune('0'+s)), 0, n-1)
@@ -497,6 +511,9 @@ func H_C19() {
 			vrt.Cover("deferred_add")
 		case 2:
 			x := vrt.Pick("x"+string(rune('0'+s)), 0, n-1)
+			if rawStart && s == 1 {
+				vrt.Assume(m.nodes&(1<<x) != 0) // removing nothing refreshes nothing
+			}
 			m.remove(x)
 			id := pool[x]
 			g.RemoveProvider(id.t, id.key, id.group)
